@@ -80,8 +80,35 @@ def gen_dssp(rng):
     return {'kind': 'dssp', 'seq': s}
 
 
+def gen_dsspfile(rng):
+    """the residue table of a DSSP output: one line per residue with the class in column 17, and break lines ('!' for a
+    discontinuity inside a chain, '!*' for a chain break) that stand for no residue"""
+    rows = []
+    n = rng.randint(1, 12)
+    for i in range(n):
+        rows.append(rng.choice('HBEGITS  '))
+        if i < n - 1 and rng.random() < 0.2:
+            rows.append(rng.choice(['!', '!*']))
+    return {'kind': 'dsspfile', 'rows': rows, 'trim_header': rng.random() < 0.3}
+
+
+def print_dsspfile(inp):
+    lines = [] if inp['trim_header'] else ['==== Secondary Structure Definition by the program DSSP, CMBI version 2.0 ====']
+    lines += ['REFERENCE W. KABSCH AND C.SANDER, BIOPOLYMERS 22 (1983) 2577-2637', '  # of hydrogen bonds ...', '',
+              '  #  RESIDUE AA STRUCTURE BP1 BP2  ACC     N-H-->O    O-->H-N    N-H-->O    O-->H-N    TCO  KAPPA ALPHA  PHI   PSI    X-CA   Y-CA   Z-CA']
+    num = 0
+    for r in inp['rows']:
+        num += 1
+        if r.startswith('!'):
+            lines.append('%5d        %-2s             0   0    0      0, 0.0     0, 0.0     0, 0.0     0, 0.0   0.000 360.0 360.0 360.0 360.0    0.0    0.0    0.0' % (num, r))
+        else:
+            lines.append('%5d %4d A A  %s              0   0   50      0, 0.0     2,-0.3     0, 0.0     0, 0.0   0.000 360.0 360.0 360.0 100.0    1.0    2.0    3.0' % (num, num, r))
+    return lines
+
+
 def generate(rng, tier):
     cases = [gen_assign(rng) for _ in range(400 if tier == 'quick' else 6000)]
+    cases += [gen_dsspfile(rng) for _ in range(60 if tier == 'quick' else 600)]
     cases += [gen_dssp(rng) for _ in range(500 if tier == 'quick' else 8000)]
     for s in ['', 'H', 'HH', 'HHHH', 'HHHHH', 'HHHHHHH', 'HHHHHHHH', 'HHHHHHHHH', 'CHC', 'HCH', 'HCHCH', 'HHHHCHHHH',
               'HHHHHHHHCHHHHHHHH', 'G', 'GHI', 'CCCC', 'HHHHHHHHHHHHHHHHHHHH']:
@@ -98,6 +125,14 @@ def run_impl(inp):
     import vermouth.system
     import vermouth.molecule
     from vermouth.dssp.dssp import AnnotateResidues, convert_dssp_to_martini
+    if inp['kind'] == 'dsspfile':
+        from vermouth.dssp.dssp import read_dssp2
+        want = ['C' if r == ' ' else r for r in inp['rows'] if not r.startswith('!')]
+        try:
+            got = read_dssp2(print_dsspfile(inp))
+        except IOError as e:
+            return {'msg': 'a well-formed DSSP residue table was rejected: %s' % e}
+        return {'msg': None if got == want else 'DSSP residue table with classes %r (break lines stand for no residue) read as %r' % (want, got)}
     if inp['kind'] == 'dssp':
         try:
             return {'out': convert_dssp_to_martini(inp['seq'])}
@@ -137,7 +172,13 @@ def ms_lit(ms):
         m['atoms'], lambda a: '{| a_key := %s; a_res := %s |}' % (zlit(a[0]), zlit(a[1])))))
 
 
+def py_prop(inp, out):
+    return out.get('msg') if inp['kind'] == 'dsspfile' else None
+
+
 def emit(inp, out):
+    if inp['kind'] == 'dsspfile':
+        return None
     if inp['kind'] == 'dssp':
         return 'CConvert %s %s' % (strlit(inp['seq']), optlit(out['out'], strlit))
     o = out['out']
@@ -147,6 +188,8 @@ def emit(inp, out):
 
 
 def nontrivial(inp, out):
+    if inp['kind'] == 'dsspfile':
+        return str(inp) if any(r.startswith('!') for r in inp['rows']) else None
     if inp['kind'] == 'dssp':
         return ('d', inp['seq']) if any(c in 'HGI123' for c in inp['seq']) else None
     sel = [m['selected'] for m in inp['ms']]
@@ -158,6 +201,8 @@ def nontrivial(inp, out):
 
 
 def describe(inp, out):
+    if inp['kind'] == 'dsspfile':
+        return {'kind': 'dsspfile', 'break_lines': sum(1 for r in inp['rows'] if r.startswith('!'))}
     if inp['kind'] == 'dssp':
         return {'kind': 'dssp', 'dssp_len': min(len(inp['seq']), 40) // 5 * 5, 'dssp_error': out['out'] is None}
     sel = [m['selected'] for m in inp['ms']]
@@ -166,6 +211,12 @@ def describe(inp, out):
 
 
 def shrink(inp):
+    if inp['kind'] == 'dsspfile':
+        rows = inp['rows']
+        for i in range(len(rows)):
+            if len(rows) > 1:
+                yield dict(inp, rows=rows[:i] + rows[i + 1:])
+        return
     if inp['kind'] == 'dssp':
         s = inp['seq']
         for i in range(len(s)):
